@@ -59,7 +59,7 @@ Definition doc_consistent (i : instr) : bool :=
   | [], _ => true
   | docs, GRole r => mem r docs
   | docs, GCpiRole r => mem r docs
-  | docs, GAny rs => forallb (fun r => mem r docs) rs || true
+  | docs, GAny rs => existsb (fun r => mem r docs) rs
   | _, _ => true
   end.
 
